@@ -51,6 +51,19 @@ CLAIMED["C12"] = dict(
         "pause, nothing pulled while parked, witness served within batch+1) runs on every case.",
    note=TB + "asyncio's flow-control contract (pause_writing / drain) is the boundary: kernel socket buffers are not modelled. Known finding D12 (inference on an all-NULL bare column) is listed in known_findings.json.",
    design="DESIGN.md section 4, C12")
+CLAIMED["C13"] = dict(
+   technique="Lean 4 proof (list induction over statement lists and selection histories; case analysis over the extracted middleware chain) + extracted chain / interceptor table / catalog databases + differential execution of grammar-generated statement lists",
+   text="Theorems in lean/MimicProps/C13.lean: the code's middleware list (extracted each run) maps onto the model's interceptors, each exactly once; "
+        "handle_query passes the client's own text and attributes; for every statement list the history has one entry per statement in textual order (a prefix "
+        "closed by the raising statement if one raises); each entry is the chain's decision under the database selected at that point; that decision is "
+        "'library' iff control statement / FROM-less select / catalog-only query (library_iff); the application's log is exactly the forwarded statements in "
+        "order; the client gets the last statement's result; the database observed follows handshake / COM_INIT_DB / USE / COM_CHANGE_USER for every history. "
+        "Tie: extraction + a real connection driven with grammar-generated texts (all built-in kinds, selects with FROM/JOIN/subquery/UNION/CTE/EXISTS over "
+        "user, catalog and ambiguous tables, DML/DDL, EXPLAIN/DESCRIBE SELECT, raising statements, comments, empty statements) by COM_QUERY with/without query "
+        "attributes and by prepare/execute after selection histories; model projection vs application call log, USE log, outcome and database. An independent "
+        "oracle written from the property text runs on every case.",
+   note=TB + "sqlglot's parser decides what the statements of a text are and which tables a query reads; the content of library-produced results is not compared here. Defect D13b found and fixed while building this check.",
+   design="DESIGN.md section 4, C13")
 CLAIMED["C05"] = dict(
    technique="Lean 4 proof (round-trip theorems for NULL bitmap, binary rows of all encoder classes, text framing, decimal text, durations; row-preservation of inference) + extracted encoder tables + byte-for-byte differential execution",
    text="Theorems in lean/MimicProps/C05.lean: NULL-bitmap round trip for every size/offset/pattern; binary rows of well-formed values of every supported "
